@@ -67,7 +67,7 @@ def check_twin(spec, acc):
             return
         names = fam.relevant_names(s_sync)
         for truth in fam.limited_truths(names, max_full=5, max_falsy=2):
-            for bm, mut in (("ret_obj", "none"), ("ret_none", "append"), ("raise_exc", "none"), ("raise_base", "append"), ("ret_zero", "rebind")):
+            for bm, mut in (("ret_obj", "none"), ("ret_none", "append"), ("raise_exc", "none"), ("raise_base", "append"), ("ret_zero", "rebind"), ("recurse", "none")):
                 l1, o1 = p1.call(truth, bm, mut, "pos")
                 l2, o2 = p2.call(truth, bm, mut, "pos")
                 acc.case((key0, tuple(sorted(truth.items())), bm, mut), bool(names), len(l1) + len(l2), (o1, o2 == o1))
@@ -262,7 +262,7 @@ def run(tier, t0):
         PROP, tier, tot, t0,
         rule="(a) {} family-F programs of the async-capable kinds (function, method, static/class method, __call__; plain and DBC "
              "chains; own/inherited pre/post/snapshot/invariant stacks; layouts; foreign decorators; error forms) rendered as "
-             "def and async def twins x all truth assignments (<=5 conditions, else <=2 falsy) x 5 body outcome/mutation modes: "
+             "def and async def twins x all truth assignments (<=5 conditions, else <=2 falsy) x 6 body outcome/mutation modes (incl. a body that calls the same callable again): "
              "event logs and outcomes of the twins must be equal (no reference involved); (b) {} placement cases: condition / "
              "capture kind (plain, coroutine function, lambda returning coroutine / done Future / custom awaitable) x role x "
              "sync|async x function|method x awaited value; non-trivial = at least one condition in effect".format(len(tw), len(pl)),
